@@ -255,6 +255,10 @@ void do_pid(const std::vector<std::string>& tok) {
     // stale, which the callbacks do not care about)
     if (!verify && footres == "ok" && (t == 0 || t == T / 2 || t + 1 == T)) {
       mjData* e = mj_copyData(nullptr, m, d);
+      // poison the arrays the callbacks write, so that a write is visible even when it stores the value already there
+      // (the same callbacks ran inside mj_step a moment ago); the native act_dot, which Compute/GetCtrl read, is kept
+      for (int k = 0; k < m->na; k++) if (k != iN) { uint64_t pz = 0x7ff8dead00000000ULL + (uint64_t)k; memcpy(e->act_dot + k, &pz, 8); }
+      for (int k = 0; k < m->nu; k++) { uint64_t pz = 0x7ff8beef00000000ULL + (uint64_t)k; memcpy(e->actuator_force + k, &pz, 8); }
       std::vector<unsigned char> snap((unsigned char*)e->buffer, (unsigned char*)e->buffer + e->nbuffer);
       if (plugin->actuator_act_dot) plugin->actuator_act_dot(m, e, inst);
       const unsigned char* b = (const unsigned char*)e->buffer;
@@ -416,10 +420,12 @@ void do_cable(const std::vector<std::string>& tok) {
     // footprint of the compute callback: only qfrc_passive entries of the cable's dofs (and nothing else in d->buffer)
     const mjpPlugin* plugin = mjp_getPluginAtSlot(m->plugin[inst]);
     mjData* e = mj_copyData(nullptr, m, d);
+    int dof0 = m->body_dofadr[i0] >= 0 ? m->body_dofadr[i0] : m->body_dofadr[i0 + 1];
+    // quiet-NaN poison in the foreign entries of qfrc_passive: "+= 0" keeps the payload, any other write shows
+    for (int k = 0; k < dof0; k++) { uint64_t pz = 0x7ff8dead00000000ULL + (uint64_t)k; memcpy(e->qfrc_passive + k, &pz, 8); }
     std::vector<unsigned char> snap((unsigned char*)e->buffer, (unsigned char*)e->buffer + e->nbuffer);
     plugin->compute(m, e, inst, mjPLUGIN_PASSIVE);
     const unsigned char* bb = (const unsigned char*)e->buffer;
-    int dof0 = m->body_dofadr[i0] >= 0 ? m->body_dofadr[i0] : m->body_dofadr[i0 + 1];
     const unsigned char* lo = (const unsigned char*)(e->qfrc_passive + dof0);
     const unsigned char* hi = (const unsigned char*)(e->qfrc_passive + m->nv);
     std::string footres = "ok";
